@@ -13,10 +13,15 @@ import (
 	"sync"
 	"sync/atomic"
 	"testing"
+	"time"
 
 	eth2api "github.com/attestantio/go-eth2-client/api"
 	eth2p0 "github.com/attestantio/go-eth2-client/spec/phase0"
 
+	eth2http "github.com/attestantio/go-eth2-client/http"
+	"github.com/rs/zerolog"
+
+	"github.com/obolnetwork/charon/app/eth2wrap"
 	"github.com/obolnetwork/charon/cluster"
 	"github.com/obolnetwork/charon/core"
 	"github.com/obolnetwork/charon/core/sigagg"
@@ -30,11 +35,16 @@ import (
 // chain: the harness' own domain / signing-root computation from the beacon node's raw data.
 
 type chain struct {
-	spe         uint64
-	gvr         eth2p0.Root
-	genesisFork eth2p0.Version
-	forks       []*eth2p0.Fork
-	domainTypes map[string]eth2p0.DomainType
+	spe            uint64
+	gvr            eth2p0.Root
+	genesisFork    eth2p0.Version
+	forks          []*eth2p0.Fork
+	domainTypes    map[string]eth2p0.DomainType
+	domainNames    []string         // sorted keys of domainTypes (deterministic PRNG choices)
+	versions       []eth2p0.Version // distinct fork versions of the schedule in activation order (genesis first)
+	bounds         []uint64         // fork activation epochs > 0, ascending
+	capellaVersion eth2p0.Version   // CAPELLA_FORK_VERSION / CAPELLA_FORK_EPOCH of the beacon node's spec (EIP-7044)
+	capellaEpoch   uint64
 }
 
 func loadChain(ctx context.Context, bmock beaconmock.Mock) (*chain, error) {
@@ -65,7 +75,26 @@ func loadChain(ctx context.Context, bmock beaconmock.Mock) (*chain, error) {
 	}
 	// builder-specs: DOMAIN_APPLICATION_BUILDER = 0x00000001 (not served by every node)
 	ch.domainTypes[domBuilder] = eth2p0.DomainType{0x00, 0x00, 0x00, 0x01}
+	for name := range ch.domainTypes {
+		ch.domainNames = append(ch.domainNames, name)
+	}
+	sort.Strings(ch.domainNames)
 	sort.SliceStable(ch.forks, func(i, j int) bool { return ch.forks[i].Epoch < ch.forks[j].Epoch })
+	ch.versions = []eth2p0.Version{ch.genesisFork}
+	for _, f := range ch.forks {
+		if f.CurrentVersion != ch.versions[len(ch.versions)-1] {
+			ch.versions = append(ch.versions, f.CurrentVersion)
+		}
+		if f.Epoch > 0 && (len(ch.bounds) == 0 || ch.bounds[len(ch.bounds)-1] != uint64(f.Epoch)) {
+			ch.bounds = append(ch.bounds, uint64(f.Epoch))
+		}
+	}
+	if ch.capellaVersion, ok = spec.Data["CAPELLA_FORK_VERSION"].(eth2p0.Version); !ok {
+		return nil, fmt.Errorf("spec without CAPELLA_FORK_VERSION")
+	}
+	if ch.capellaEpoch, ok = spec.Data["CAPELLA_FORK_EPOCH"].(uint64); !ok {
+		return nil, fmt.Errorf("spec without CAPELLA_FORK_EPOCH")
+	}
 
 	return ch, nil
 }
@@ -82,19 +111,51 @@ func (ch *chain) forkVersion(epoch uint64) eth2p0.Version {
 	return v
 }
 
-// domain = domain_type ++ hash_tree_root(ForkData{version, genesis_validators_root})[:28].
-// The builder domain is fixed to the genesis fork version and a zero genesis validators root
-// (builder-specs). The voluntary-exit domain follows the fork schedule here: EIP-7044 pinning to
-// Capella is implemented by charon's eth2wrap http adapter, which is not part of this setup (the
-// beaconmock's Domain is go-eth2-client's plain fork-schedule lookup).
-func (ch *chain) domain(name string, epoch uint64) (eth2p0.Domain, error) {
-	dt, ok := ch.domainTypes[name]
-	if !ok {
-		return eth2p0.Domain{}, fmt.Errorf("unknown domain %s", name)
+// domSpec names one signing domain: domain type, fork version and whether the fork data carries
+// the chain's genesis validators root (the builder domain carries a zero root).
+type domSpec struct {
+	Name    string
+	Version eth2p0.Version
+	ZeroGVR bool
+}
+
+func (d domSpec) String() string {
+	s := fmt.Sprintf("%s/fork-version-%x", d.Name, d.Version[:])
+	if d.ZeroGVR {
+		s += "/zero-genesis-validators-root"
 	}
-	fd := &eth2p0.ForkData{CurrentVersion: ch.forkVersion(epoch), GenesisValidatorsRoot: ch.gvr}
-	if name == domBuilder {
-		fd = &eth2p0.ForkData{CurrentVersion: ch.genesisFork}
+
+	return s
+}
+
+// ownSpec: the domain the consensus / builder specs prescribe for a message of domain type `name`
+// whose own epoch is `epoch`:
+//   - builder registrations: genesis fork version, zero genesis validators root (builder-specs);
+//   - voluntary exits: EIP-7044 (deneb process_voluntary_exit) pins the domain to
+//     CAPELLA_FORK_VERSION once the chain is past capella; charon documents and implements this in
+//     its beacon-node http adapter (app/eth2wrap/httpwrap.go Domain), which is the client the
+//     verifier under test runs on in this harness;
+//   - everything else: the version of the fork active at the message's epoch.
+func (ch *chain) ownSpec(name string, epoch uint64) domSpec {
+	switch {
+	case name == domBuilder:
+		return domSpec{Name: name, Version: ch.genesisFork, ZeroGVR: true}
+	case name == domExit && epoch >= ch.capellaEpoch:
+		return domSpec{Name: name, Version: ch.capellaVersion}
+	default:
+		return domSpec{Name: name, Version: ch.forkVersion(epoch)}
+	}
+}
+
+// domainOf: domain = domain_type ++ hash_tree_root(ForkData{version, genesis_validators_root})[:28].
+func (ch *chain) domainOf(ds domSpec) (eth2p0.Domain, error) {
+	dt, ok := ch.domainTypes[ds.Name]
+	if !ok {
+		return eth2p0.Domain{}, fmt.Errorf("unknown domain %s", ds.Name)
+	}
+	fd := &eth2p0.ForkData{CurrentVersion: ds.Version, GenesisValidatorsRoot: ch.gvr}
+	if ds.ZeroGVR {
+		fd.GenesisValidatorsRoot = eth2p0.Root{}
 	}
 	root, err := fd.HashTreeRoot()
 	if err != nil {
@@ -107,13 +168,46 @@ func (ch *chain) domain(name string, epoch uint64) (eth2p0.Domain, error) {
 	return d, nil
 }
 
-func (ch *chain) signingRoot(in info) ([32]byte, error) {
-	d, err := ch.domain(in.Domain, in.Epoch)
+func (ch *chain) domain(name string, epoch uint64) (eth2p0.Domain, error) {
+	return ch.domainOf(ch.ownSpec(name, epoch))
+}
+
+// signingRootUnder wraps the object root of `in` with an arbitrary domain.
+func (ch *chain) signingRootUnder(in info, ds domSpec) ([32]byte, error) {
+	d, err := ch.domainOf(ds)
 	if err != nil {
 		return [32]byte{}, err
 	}
 
 	return (&eth2p0.SigningData{ObjectRoot: in.Root, Domain: d}).HashTreeRoot()
+}
+
+// signingRoot: the object's own signing root (own root, own domain type, own epoch).
+func (ch *chain) signingRoot(in info) ([32]byte, error) {
+	return ch.signingRootUnder(in, ch.ownSpec(in.Domain, in.Epoch))
+}
+
+// otherSideOfNearestFork: an epoch in the fork adjacent to epoch's fork, across the activation
+// epoch nearest to epoch (ok=false when the schedule has no fork after genesis).
+func (ch *chain) otherSideOfNearestFork(epoch uint64) (uint64, bool) {
+	if len(ch.bounds) == 0 {
+		return 0, false
+	}
+	best, bestDist := ch.bounds[0], ^uint64(0)
+	for _, b := range ch.bounds {
+		d := epoch - b
+		if epoch < b {
+			d = b - epoch - 1
+		}
+		if d < bestDist {
+			best, bestDist = b, d
+		}
+	}
+	if epoch >= best {
+		return best - 1, true
+	}
+
+	return best, true
 }
 
 // ---------------------------------------------------------------------------------------------
@@ -132,6 +226,7 @@ type partialMeta struct {
 	Label      int    `json:"label"`
 	SignedBy   string `json:"signed_by"` // "share k of validator v" / "unrelated key" / "none"
 	SignedRoot string `json:"signed_signing_root"`
+	Under      string `json:"signed_under_domain,omitempty"` // set when signed under a domain other than the object's own
 	ObjRoot    string `json:"object_root"`
 	Sig        string `json:"signature"`
 
@@ -147,6 +242,8 @@ type valPlan struct {
 	meta     []partialMeta
 	class    string
 	note     string
+	// straddles: an attestation whose source and target checkpoints lie in different forks
+	straddles bool
 }
 
 type published struct {
@@ -189,6 +286,9 @@ var mustErrorClasses = []string{
 	"wrong-index-label", "other-message", "mixed-two-messages",
 	"zero-signature", "zeroed-tail-signature", "garbage-signature", "bit-flipped-signature",
 	"too-few", "repeated-share-in-threshold-size-set", "foreign-validator-set",
+	// signed under another domain: every partial (mixed: 1..len-1 of them) is a genuine share
+	// signature over the object's own root wrapped with a domain that is not the object's own.
+	"other-domain/previous-fork-version", "other-domain/next-fork-version", "other-domain/other-domain-type", "other-domain/other-epoch", "other-domain/mixed",
 }
 
 var universalOnlyClasses = []string{
@@ -214,13 +314,16 @@ func TestCheck(t *testing.T) {
 	r.Rule(fmt.Sprintf("case = one Aggregate call on the real sigagg.Aggregator (real NewVerifier over beaconmock; one Aggregator per cluster shared by all concurrent cases); "+
 		"object kind cycles through all 12 core.Eth2SignedData types x every fork version (7 attestation, 5+5 blinded proposal (bellatrix..fulu; charon refuses phase0/altair proposals as unsupported), 7 versioned aggregate-and-proof versions; %d kinds), content from charon's testutil generators (not seed-reproducible) with PRNG slots/epochs around the mock's fork boundaries; "+
 		"cluster from cluster.NewForT with real key shares, n in 3..%d, t=ceil(2n/3), 3 validators; 1..3 validators per call; "+
+		"attestations: 40%% straddle a fork activation epoch F of the node's schedule (target F or F+1, source F-1 or F-2), else target from the epoch mix with the source right behind / a few epochs behind / anywhere; "+
 		"call class PRNG: valid (threshold subsets walked round-robin so that every subset of size >= t is used for n<=5; PRNG subsets above, partial order shuffled) / one of %d must-error corruption classes applied to exactly one validator of the call / one of %d universal-only classes; "+
+		"the other-domain/* classes sign the object's own root with genuine shares under a domain that is not the object's own (previous / next fork version of the schedule, another domain type, the schedule's domain at another epoch: attestation source epoch or slot epoch, own epoch +-1, the other side of the nearest fork activation, for exits and builder registrations the plain schedule domain; all partials, or 1..len-1 of them in the mixed class); "+
 		"30%% of the valid calls are followed by a replay that keeps one validator's first partial byte-identical and re-signs another of its partials with an unrelated key (must be refused although the same head was verified a moment before); "+
 		"35%% of all calls (valid and corrupted alike) run under a per-call beacon-node fault plan carried in the context: 1-2 rules over the verifier's lookups (Spec, Domain, GenesisDomain, Genesis, ForkSchedule, SlotsPerEpoch, or 'k-th lookup of the call whichever it is'), each failing with an error or a context-deadline error always / only the k-th time / from the k-th time on; "+
 		"non-trivial = the call carried at least one validator with >= t partials or a corruption; distinct = hash(kind, n, class, labels, corrupted position, validators)",
 		len(kinds), maxN, len(mustErrorClasses), len(universalOnlyClasses)))
 	r.Assume("herumi BLS (tbls.Verify / tbls.Sign) is correct (C08); the harness verifies published signatures with tbls.Verify directly against a signing root it computes itself (object hash-tree-root via go-eth2-client types, domain from the mock's raw spec / genesis / fork schedule)")
-	r.Assume("the voluntary-exit domain follows the mock's fork schedule (EIP-7044 Capella pinning lives in eth2wrap's http adapter, which beaconmock bypasses)")
+	r.Assume("the verifier's beacon-node client is charon's production http adapter (eth2wrap.AdaptEth2HTTP, fork version set) over the beaconmock's HTTP server; a voluntary exit's own domain is DOMAIN_VOLUNTARY_EXIT under CAPELLA_FORK_VERSION of the node's spec from CAPELLA_FORK_EPOCH on (EIP-7044, which the adapter's Domain implements), computed by the harness from the raw spec values")
+	r.Assume("an object's own epoch is read from the object per the consensus specs by the harness (attestation: data.target.epoch; block / aggregate / selection / sync messages: epoch of the slot; exit: message epoch; randao: the signed epoch; builder registration: none), never through charon's Epoch()/DomainName()/MessageRoot() methods")
 	r.Assume("attestations with Data.Slot = 20 (mod 2^32) are not generated: without ValidatorIndex they cannot be SSZ-cloned by charon (encoding defect outside this property, reported separately)")
 	r.Assume("beacon-node faults are injected in a wrapper around beaconmock at the eth2wrap.Client methods the verifier uses; a timeout is an immediate context.DeadlineExceeded error (no real waiting); under a served fault a valid call may be refused or published, a corrupted call must still be refused")
 	r.Assume("monitor subscribers always return nil, so an error from Aggregate is never a subscriber's own error")
@@ -232,6 +335,9 @@ func TestCheck(t *testing.T) {
 	r.Require("replay_followup_calls", 300)
 	r.Require("fault_served_calls", 1000)
 	r.Require("fault_served_calls_with_corruption", 500)
+	r.Require("calls_other_domain_rejected", 800)
+	r.Require("other_domain_attestation_sets_under_source_epoch_domain", 20)
+	r.Require("valid_published_attestations_source_and_target_in_different_forks", 50)
 
 	bmock, err := beaconmock.New(ctx)
 	if err != nil {
@@ -246,9 +352,17 @@ func TestCheck(t *testing.T) {
 		return
 	}
 	// Trusted-base cross check (not a verdict about charon): the harness' domain computation and
-	// the beacon node client's agree on every domain type at epochs around every fork.
+	// go-eth2-client's agree on every domain type at epochs around every fork. The voluntary-exit
+	// domain is not compared: go-eth2-client follows the fork schedule, the harness follows EIP-7044.
+	xepochs := []uint64{0, 1, 2047, 2048, 2049, 50687, 50688, 50689, 1 << 40}
+	for _, b := range ch.bounds {
+		xepochs = append(xepochs, b-1, b, b+1)
+	}
 	for name, dt := range ch.domainTypes {
-		for _, ep := range []uint64{0, 1, 2047, 2048, 2049, 50687, 50688, 50689, 1 << 40} {
+		if name == domExit {
+			continue
+		}
+		for _, ep := range xepochs {
 			var want eth2p0.Domain
 			if name == domBuilder {
 				want, err = bmock.GenesisDomain(ctx, dt)
@@ -262,6 +376,29 @@ func TestCheck(t *testing.T) {
 			}
 		}
 	}
+	if len(ch.bounds) == 0 || len(ch.versions) < 3 {
+		r.Inconclusive("the beacon node's fork schedule has no fork after genesis (%d versions): wrong-fork-domain cases cannot be built", len(ch.versions))
+		return
+	}
+	r.Set("fork_versions", fmt.Sprintf("%x", ch.versions))
+	r.Set("fork_activation_epochs_after_genesis", ch.bounds)
+
+	// The beacon-node client the verifier runs on: charon's production http adapter
+	// (eth2wrap.AdaptEth2HTTP over go-eth2-client's http service, as eth2wrap.newBeaconClient builds
+	// it, fork version set as app.Run does) talking to the beaconmock's HTTP server. go-eth2-client
+	// caches spec, genesis and fork schedule after the first request, so lookups are in-memory.
+	svc, err := eth2http.New(ctx, eth2http.WithLogLevel(zerolog.Disabled), eth2http.WithAddress(bmock.Address()), eth2http.WithTimeout(2*time.Minute))
+	if err != nil {
+		r.Inconclusive("eth2http.New: %v", err)
+		return
+	}
+	httpSvc, ok := svc.(*eth2http.Service)
+	if !ok {
+		r.Inconclusive("eth2http.New returned %T", svc)
+		return
+	}
+	bnClient := eth2wrap.AdaptEth2HTTP(httpSvc, nil, 2*time.Minute)
+	bnClient.SetForkVersion(ch.genesisFork)
 	r.Set("slots_per_epoch", ch.spe)
 
 	mon := &monitor{}
@@ -280,7 +417,7 @@ func TestCheck(t *testing.T) {
 			env.groups = append(env.groups, g)
 			env.pubs = append(env.pubs, core.PubKeyFrom48Bytes(g))
 		}
-		agg, err := sigagg.New(th, sigagg.NewVerifier(faultClient{Client: bmock}))
+		agg, err := sigagg.New(th, sigagg.NewVerifier(faultClient{Client: bnClient}))
 		if err != nil {
 			r.Inconclusive("sigagg.New: %v", err)
 			return
@@ -380,13 +517,29 @@ type builder struct {
 
 // partial signs obj with key and labels it; genuine tells whether key is share `label` of validator vi.
 func (b *builder) partial(obj core.SignedData, key tbls.PrivateKey, label int, signedBy string, genuine bool, realShare int) (core.ParSignedData, partialMeta, error) {
+	return b.partialUnder(obj, key, label, signedBy, genuine, realShare, nil)
+}
+
+// partialUnder is partial with the signing domain chosen by the caller: under == nil is the
+// object's own domain; otherwise the object's own root is wrapped with *under (a signature over
+// ANOTHER message than the object's signing root unless the two domains happen to be equal).
+func (b *builder) partialUnder(obj core.SignedData, key tbls.PrivateKey, label int, signedBy string, genuine bool, realShare int, under *domSpec) (core.ParSignedData, partialMeta, error) {
 	in, err := inspect(obj, b.ch.spe)
 	if err != nil {
 		return core.ParSignedData{}, partialMeta{}, err
 	}
-	sr, err := b.ch.signingRoot(in)
+	ownSR, err := b.ch.signingRoot(in)
 	if err != nil {
 		return core.ParSignedData{}, partialMeta{}, err
+	}
+	sr, underDesc := ownSR, ""
+	if under != nil {
+		if sr, err = b.ch.signingRootUnder(in, *under); err != nil {
+			return core.ParSignedData{}, partialMeta{}, err
+		}
+		if sr != ownSR {
+			underDesc = fmt.Sprintf("%s (own domain: %s at own epoch %d)", *under, b.ch.ownSpec(in.Domain, in.Epoch), in.Epoch)
+		}
 	}
 	sig, err := tbls.Sign(key, sr[:])
 	if err != nil {
@@ -396,12 +549,111 @@ func (b *builder) partial(obj core.SignedData, key tbls.PrivateKey, label int, s
 	if err != nil {
 		return core.ParSignedData{}, partialMeta{}, err
 	}
-	m := partialMeta{Label: label, SignedBy: signedBy, SignedRoot: hx(sr[:]), ObjRoot: hx(in.Root[:]), Sig: hx(sig[:]), signedSR: sr, realShare: realShare}
-	if genuine {
+	m := partialMeta{Label: label, SignedBy: signedBy, SignedRoot: hx(sr[:]), Under: underDesc, ObjRoot: hx(in.Root[:]), Sig: hx(sig[:]), signedSR: sr, realShare: realShare}
+	if genuine && sr == ownSR {
 		m.signed = sr
 	}
 
 	return core.ParSignedData{SignedData: signed, ShareIdx: label}, m, nil
+}
+
+// Wrong-domain variants. Each returns a domain that differs from the object's own domain (ok=false:
+// no such domain exists for this object), plus a short description.
+var otherDomainVariants = []string{"previous-fork-version", "next-fork-version", "other-domain-type", "other-epoch"}
+
+func (b *builder) otherDomain(in info, variant string, mayCancel bool) (domSpec, string, bool) {
+	ch, rng := b.ch, b.rng
+	own := ch.ownSpec(in.Domain, in.Epoch)
+	ownDom, err := ch.domainOf(own)
+	if err != nil {
+		return domSpec{}, "", false
+	}
+	differs := func(ds domSpec) bool {
+		d, err := ch.domainOf(ds)
+		return err == nil && d != ownDom
+	}
+	switch variant {
+	case "previous-fork-version", "next-fork-version":
+		idx := -1
+		for i, v := range ch.versions {
+			if v == own.Version {
+				idx = i
+			}
+		}
+		o := idx + 1
+		if variant == "previous-fork-version" {
+			o = idx - 1
+		}
+		if idx < 0 || o < 0 || o >= len(ch.versions) {
+			return domSpec{}, "", false
+		}
+		ds := own
+		ds.Version = ch.versions[o]
+		if ds.ZeroGVR && rng.Intn(3) == 0 { // builder domain: also with the chain's genesis validators root
+			ds.ZeroGVR = false
+		}
+
+		return ds, fmt.Sprintf("%s of the fork schedule (%x instead of %x)", variant, ds.Version[:], own.Version[:]), differs(ds)
+	case "other-domain-type":
+		var cand []string
+		for _, n := range ch.domainNames {
+			if n != in.Domain {
+				cand = append(cand, n)
+			}
+		}
+		ds := own
+		ds.Name = cand[rng.Intn(len(cand))]
+
+		return ds, fmt.Sprintf("%s instead of %s (same fork version)", ds.Name, in.Domain), differs(ds)
+	case "other-epoch":
+		// the domain the fork schedule gives this domain type at another epoch: an epoch the object
+		// carries but that does not define its domain (attestation source epoch / slot epoch), a
+		// neighbouring epoch, the other side of the nearest fork activation epoch; for exits and
+		// builder registrations (whose own domain does not follow the schedule) the schedule's
+		// domain at the object's own epoch as well.
+		type cnd struct {
+			why string
+			ds  domSpec
+		}
+		var cands []cnd
+		at := func(why string, e uint64) {
+			cands = append(cands, cnd{fmt.Sprintf("%s at %s %d", in.Domain, why, e), domSpec{Name: in.Domain, Version: ch.forkVersion(e)}})
+		}
+		for _, a := range in.alt {
+			at(a.why, a.epoch)
+		}
+		if in.Epoch > 0 {
+			at("own epoch - 1 =", in.Epoch-1)
+		}
+		at("own epoch + 1 =", in.Epoch+1)
+		if e, ok := ch.otherSideOfNearestFork(in.Epoch); ok {
+			at("the other side of the nearest fork activation, epoch", e)
+		}
+		if in.Domain == domExit || in.Domain == domBuilder {
+			at("own epoch (plain fork schedule) =", in.Epoch)
+			at("epoch", uint64(rng.Intn(60000)))
+		}
+		var diff []cnd
+		for _, c := range cands {
+			if differs(c.ds) {
+				diff = append(diff, c)
+			}
+		}
+		switch {
+		case len(diff) > 0 && len(in.alt) > 0 && differs(cands[0].ds) && rng.Intn(2) == 0:
+			return cands[0].ds, cands[0].why, true // attestation: the source epoch's domain
+		case mayCancel && rng.Intn(4) == 0:
+			c := cands[rng.Intn(len(cands))] // may be the very same domain (neighbour epoch, same fork)
+			return c.ds, c.why, true
+		case len(diff) > 0:
+			c := diff[rng.Intn(len(diff))]
+			return c.ds, c.why, true
+		}
+
+		return domSpec{}, "", false
+	}
+
+	return domSpec{}, "", false
 }
 
 func (b *builder) genuine(vi int, obj core.SignedData, id int) (core.ParSignedData, partialMeta, error) {
@@ -443,6 +695,13 @@ func (b *builder) plan(vi int, k kind, g *genCtx, class string, ids []int) (*val
 	baseSR, err := b.ch.signingRoot(baseIn)
 	if err != nil {
 		return nil, err
+	}
+	if baseIn.Domain == domAttester && len(baseIn.alt) > 0 {
+		p.straddles = b.ch.forkVersion(baseIn.alt[0].epoch) != b.ch.forkVersion(baseIn.Epoch)
+		b.c.R.Count("attestation_sets", 1)
+		if p.straddles {
+			b.c.R.Count("attestation_sets_source_and_target_in_different_forks", 1)
+		}
 	}
 	// other: an object of the same kind whose signing root differs (fresh content or a one-field
 	// tweak of the signed content; fresh small objects such as selections can collide, so check).
@@ -613,6 +872,47 @@ func (b *builder) plan(vi int, k kind, g *genCtx, class string, ids []int) (*val
 			p.partials[pos], p.meta[pos] = par, m
 		}
 		p.note = fmt.Sprintf("a fully valid threshold set of validator %d filed under validator %d", ov, vi)
+	case "other-domain/previous-fork-version", "other-domain/next-fork-version", "other-domain/other-domain-type", "other-domain/other-epoch", "other-domain/mixed":
+		variant := strings.TrimPrefix(class, "other-domain/")
+		mixed := variant == "mixed"
+		if mixed {
+			variant = otherDomainVariants[rng.Intn(len(otherDomainVariants))]
+		}
+		ds, why, ok := b.otherDomain(baseIn, variant, !mixed)
+		if !ok { // e.g. no fork version before the first one: any variant that yields a different domain
+			for _, oi := range rng.Perm(len(otherDomainVariants)) {
+				if ds, why, ok = b.otherDomain(baseIn, otherDomainVariants[oi], false); ok {
+					variant = otherDomainVariants[oi]
+					break
+				}
+			}
+		}
+		if !ok {
+			return nil, fmt.Errorf("no other domain for %s", baseIn.Type)
+		}
+		positions := rng.Perm(len(ids))
+		if mixed {
+			positions = positions[:1+rng.Intn(len(ids)-1)] // 1..len-1 partials under the other domain
+		} else {
+			p.class = "other-domain/" + variant
+		}
+		for _, pos := range positions {
+			id := ids[pos]
+			par, m, err := b.partialUnder(obj, env.shares[vi][id-1], id, fmt.Sprintf("share %d of validator %d", id, vi), true, id, &ds)
+			if err != nil {
+				return nil, err
+			}
+			p.partials[pos], p.meta[pos] = par, m
+		}
+		p.note = fmt.Sprintf("%d of %d partials sign the object's own root under another domain: %s", len(positions), len(ids), why)
+		b.c.R.Count("other_domain_sets/"+variant, 1)
+		b.c.R.Seen("other_domain_variant_by_type", variant+" / "+baseIn.Type)
+		if wd, err := b.ch.domainOf(ds); err == nil && !mixed && baseIn.Domain == domAttester && len(baseIn.alt) > 0 {
+			// the decisive shape for a verifier that picks the domain by the wrong checkpoint
+			if sd, err := b.ch.domain(domAttester, baseIn.alt[0].epoch); err == nil && sd == wd && p.meta[0].Under != "" {
+				b.c.R.Count("other_domain_attestation_sets_under_source_epoch_domain", 1)
+			}
+		}
 	case "two-corruptions":
 		simple := []string{"wrong-share-key/other-share-same-validator", "wrong-index-label", "other-message", "zero-signature", "bit-flipped-signature", "wrong-share-key/unrelated-key"}
 		perm := rng.Perm(len(ids))
@@ -732,7 +1032,7 @@ func isMustError(class string) bool {
 
 func runCase(ctx context.Context, c *kit.Case, ch *chain, mon *monitor, env *clusterEnv, k kind, cursor *atomic.Uint64) {
 	r, rng := c.R, c.Rng
-	g := &genCtx{t: r.T(), rng: rng, spe: ch.spe}
+	g := &genCtx{t: r.T(), rng: rng, spe: ch.spe, bounds: ch.bounds}
 	b := &builder{c: c, ch: ch, env: env, rng: rng}
 
 	// which validators, which class
@@ -872,6 +1172,9 @@ func runCase(ctx context.Context, c *kit.Case, ch *chain, mon *monitor, env *clu
 				c.Violation("sigagg/Aggregate/accepts-corrupt-partials/"+class, "Aggregate returned nil although one validator's partials were corrupted ("+class+")", witness(nil))
 			} else {
 				r.Count("calls_must_error_rejected", 1)
+				if strings.HasPrefix(class, "other-domain/") {
+					r.Count("calls_other_domain_rejected", 1)
+				}
 				r.Seen("reject_reasons", class+" => "+reason(err))
 			}
 		}
@@ -956,6 +1259,11 @@ func runCase(ctx context.Context, c *kit.Case, ch *chain, mon *monitor, env *clu
 		switch {
 		case allValid && err == nil && len(pubs) > 0:
 			r.Count("calls_valid_published", 1)
+			for _, p := range plans {
+				if p.straddles {
+					r.Count("valid_published_attestations_source_and_target_in_different_forks", 1)
+				}
+			}
 		case allValid && err != nil && faultServed:
 			// a valid call may fail when a lookup it needs was refused: either outcome is fine
 			r.Count("calls_valid_rejected_by_injected_fault", 1)
